@@ -7,8 +7,17 @@ fails, evals, samples = [], 0, []
 names = ["zeta", "alpha", "mid", "b2", "a1", "x9", "k", "omega"]
 idx = pd.date_range("2020-01-01", periods=12)
 data = pd.DataFrame(100 + rs.randn(12, len(names)).cumsum(axis=0), index=idx, columns=names)
+class Budget(bt.Algo):
+    """a stateful algo that keeps its state in a Series attribute and writes into it in place: lets the stack through on the first two dates it sees only"""
+    def __init__(self):
+        super().__init__(); self.seen = pd.Series(False, index=idx)
+    def __call__(self, target):
+        if target.now not in self.seen.index: return False
+        ok = int(self.seen.sum()) < 2
+        self.seen.loc[target.now] = True
+        return ok
 def mk():
-    return bt.Strategy("s", [bt.algos.RunWeekly(), bt.algos.SelectAll(), bt.algos.WeighEqually(), bt.algos.Rebalance()], children=["alpha", "zeta", "k", "x9", "mid"])
+    return bt.Strategy("s", [bt.algos.RunWeekly(), Budget(), bt.algos.SelectAll(), bt.algos.WeighEqually(), bt.algos.Rebalance()], children=["alpha", "zeta", "k", "x9", "mid"])
 def mk_nested():
     st = lambda: [bt.algos.RunWeekly(), bt.algos.SelectAll(), bt.algos.WeighEqually(), bt.algos.Rebalance()]
     return bt.Strategy("top", st(), children=[bt.Strategy(n, st(), children=[a, b]) for n, a, b in (("omega_s", "zeta", "k"), ("alpha_s", "alpha", "x9"), ("mid_s", "mid", "b2"), ("q_s", "a1", "omega"))] + ["k"])
@@ -23,7 +32,8 @@ for it in range(N):
     s = mk()
     d0 = data.copy(deep=True)
     sig = pd.DataFrame(rs.rand(12, len(names)) > 0.5, index=idx, columns=names)
-    extra = {"signal": sig, "bidoffer": pd.DataFrame(0.01, index=idx, columns=names), "note": "not a frame"}
+    extra = {"signal": sig, "bidoffer": pd.DataFrame(0.01, index=idx, columns=names), "note": "not a frame", "level": pd.Series(np.arange(12.0), index=idx, name="level")}
+    lvl0 = extra["level"].copy(deep=True)
     extra_ids = {k: id(v) for k, v in extra.items()}; sig0 = sig.copy(deep=True)
     cf0, ip0 = s.commission_fn, s.integer_positions
     # a backtest with its own cost model and data, then plain ones from the same template
@@ -31,16 +41,24 @@ for it in range(N):
     t1 = bt.Backtest(s, data, initial_capital=10000.0); t2 = bt.Backtest(s, data, initial_capital=10000.0)
     t0.run()
     if s.commission_fn is not cf0 or s.integer_positions is not ip0: fails.append(dict(clause="template-settings-changed-by-a-backtest"))
-    if {k: id(v) for k, v in extra.items()} != extra_ids or not extra["signal"].equals(sig0) or len(extra["signal"]) != 12: fails.append(dict(clause="additional-data-dict-mutated"))
+    if {k: id(v) for k, v in extra.items()} != extra_ids or not extra["signal"].equals(sig0) or len(extra["signal"]) != 12 or len(extra["level"]) != 12 or not extra["level"].equals(lvl0): fails.append(dict(clause="additional-data-dict-mutated"))
     order = rs.rand() < 0.5
     (t2 if order else t1).run(); (t1 if order else t2).run()
     evals += 1
     if not data.equals(d0): fails.append(dict(clause="input-frame-mutated"))
     if s.children and any(getattr(c, "_position", 0) != 0 for c in s.children.values()): fails.append(dict(clause="template-mutated"))
     if not t1.strategy.prices.equals(t2.strategy.prices): fails.append(dict(clause="same-template-backtests-differ"))
+    if bool(s.stack.algos[1].seen.any()): fails.append(dict(clause="template-mutated", what="a frame held by an algo of the template was written by a backtest"))
     if float(t1.strategy.fees.abs().sum()) != 0.0: fails.append(dict(clause="backtest-inherits-cost-model-of-a-sibling-backtest", fees=float(t1.strategy.fees.sum())))
     if {k: id(v) for k, v in extra.items()} != extra_ids: fails.append(dict(clause="additional-data-dict-mutated-by-run"))
     p = t1.strategy.prices.copy(); t1.run()
     if not p.equals(t1.strategy.prices): fails.append(dict(clause="rerun-changed-results"))
+    if it < 2:
+        # the helper that benchmarks against random portfolios builds its backtests from the caller's template as well
+        import contextlib, io
+        rtpl = bt.Strategy("rnd", [bt.algos.RunMonthly(), bt.algos.SelectRandomly(2), bt.algos.WeighRandomly(), bt.algos.Rebalance()])
+        with contextlib.redirect_stderr(io.StringIO()): res_ = bt.backtest.benchmark_random(bt.Backtest(mk(), data), rtpl, nsim=2)
+        evals += 1
+        if rtpl.name != "rnd": fails.append(dict(clause="benchmark_random-renamed-the-caller's-template", name=rtpl.name))
     if it < 1: samples.append(dict(final_value=float(t1.strategy.value)))
 print("JSON:" + json.dumps(dict(evaluations=evals, distinct=evals, failures=fails[:3], samples=samples, rule="pairs of backtests from one template run in random order; input frame / template compared before and after; re-run compared", bound="%d template pairs, 12 dates, 8 tickers" % N)))
